@@ -133,7 +133,7 @@ def _run_part_hyp(part, ctx, deadline_at):
             stopped[0] = True
             raise _StopEarly()
         try:
-            part.check(case, ctx)
+            call_check(part, case, ctx)
         except Violation as v:
             failures.append((len(canon(case)), case, v.relation, v.detail))
             if first_fail_at[0] is None:
@@ -165,7 +165,7 @@ def _run_part_hyp(part, ctx, deadline_at):
             small = reduce_case(part, case, rel, ctx, 20.0 if ctx.tier == "quick" else 90.0)
             if small is not case:
                 try:
-                    part.check(small, Ctx(ctx.pid, ctx.tier, ctx.seed, flags=ctx.flags))
+                    call_check(part, small, Ctx(ctx.pid, ctx.tier, ctx.seed, flags=ctx.flags))
                 except Violation as v:
                     case, det = small, v.detail
                 except BaseException:
@@ -174,6 +174,32 @@ def _run_part_hyp(part, ctx, deadline_at):
             pass
         return {"part": part.name, "relation": rel, "detail": det, "case": case}, stopped[0]
     return None, stopped[0]
+
+
+def call_check(part, case, ctx):
+    """Run one case. An exception that is neither a Violation nor raised by the harness's own code but comes out of the
+    labrea package itself while a generated (valid) program is being built or driven outside the checks' guarded calls
+    is a behaviour the reference never allows (construction, registration and reflection of a valid program succeed on
+    the reference): it is reported as a violation, not as a harness error. Exceptions whose innermost frame is harness
+    code stay harness errors."""
+    try:
+        return part.check(case, ctx)
+    except Violation:
+        raise
+    except Exception as e:
+        import traceback
+        import labrea
+        pkg = os.path.dirname(os.path.abspath(labrea.__file__)) + os.sep
+        frames = traceback.extract_tb(e.__traceback__)
+        own = [f for f in frames if os.path.abspath(f.filename).startswith(pkg) or os.path.abspath(f.filename).startswith(HERE + os.sep)]
+        if own and os.path.abspath(own[-1].filename).startswith(pkg):
+            inner = own[-1]
+            outer = [f for f in frames if os.path.abspath(f.filename).startswith(HERE + os.sep)]
+            where = f"{os.path.basename(outer[-1].filename)}:{outer[-1].name}" if outer else "?"
+            raise Violation("labrea-raised-on-valid-program",
+                            f"{type(e).__name__}: {e} raised from labrea/{os.path.relpath(inner.filename, pkg)}:{inner.lineno} ({inner.name}) "
+                            f"while the harness was in {where}: on the reference every generated program can be built and driven") from e
+        raise
 
 
 # ---- spec-level reducer (runs after Hypothesis; keeps the same relation failing) ----------------------------
@@ -231,7 +257,7 @@ def reduce_case(part, case, relation, ctx, budget_s):
         try:
             sub = Ctx(ctx.pid, ctx.tier, ctx.seed, flags=ctx.flags)
             sub.current_part = part.name
-            part.check(c, sub)
+            call_check(part, c, sub)
             return False
         except Violation as v:
             return v.relation == relation
@@ -268,7 +294,7 @@ def _run_part_enum(part, ctx, deadline_at):
             break
         k += 1
         try:
-            part.check(case, ctx)
+            call_check(part, case, ctx)
         except Violation as v:
             return {"part": part.name, "relation": v.relation, "detail": v.detail, "case": case}, stopped
     return None, stopped
@@ -320,7 +346,7 @@ def _find_part(mod, name):
 def _replay_case(mod, rec, ctx):
     part = _find_part(mod, rec["part"])
     ctx.current_part = part.name
-    part.check(rec["case"], ctx)
+    call_check(part, rec["case"], ctx)
 
 
 def _write_replay(pid, v):
